@@ -82,7 +82,7 @@ def families():
         qs.append(Q("safe_alloc_vs_alloc_%s_sw2" % tag, ["C02"], "thorough", "safe", fl, "S_2", ALLOC, ALLOC, [24, 24], 2, 1, n1=(1, 16)))
         qs.append(Q("safe_alloc_vs_dealloc_%s_sw3" % tag, ["C02"], "thorough", "safe", fl, "S_H", ALLOC, DEALLOC, [24, 16], 3, 1, timeout=1800))
     # a thread that still holds a reference to a node another thread has popped, filled and will check (stale reference)
-    qs.append(Q("safe_allocfree_vs_alloc_opt_sw3_stale", ["C02"], "quick", "safe", "Optimistic", "S_HN", ALLOC_FREE, ALLOC, [30, 22], 3, 2, n1=(1, 8), timeout=1200))
+    qs.append(Q("safe_allocfree_vs_alloc_opt_sw3_stale", ["C02"], "thorough", "safe", "Optimistic", "S_HN", ALLOC_FREE, ALLOC, [30, 22], 3, 2, n1=(1, 8), timeout=3000))
     qs.append(Q("safe_allocfree_vs_alloc_pess_sw3_stale", ["C02"], "thorough", "safe", "Pessimistic", "S_HN", ALLOC_FREE, ALLOC, [30, 24], 3, 2, n1=(1, 8), timeout=2400))
     qs.append(Q("safe_bump_vs_toprelease_none_sw2", ["C02"], "quick", "safe", "None", "S_E", ALLOC_FREE, DEALLOC_ALLOC, [14, 14], 2, 1, n1=(1, 24)))
     qs.append(Q("safe_bump_vs_toprelease_none_sw3", ["C02"], "quick", "safe", "None", "S_E", ALLOC_FREE, DEALLOC_ALLOC, [14, 14], 3, 2, n1=(1, 24)))
